@@ -27,6 +27,7 @@ KINDS_T = KINDS_Q + [5.5, 'p*r']
 TARGET = [1, 2, 4, 8]
 TARGET2 = [16, 't', None, 128]
 TARGET_E = [32, 64, 256, 512]   # E3:E6
+BLOCK_FIXED = 5      # U!B2, the fourth cell of the 2x2 criteria block (U!A1, B1, A2 follow the vector)
 TARGET_T = [1024, 2048, 4096, 8192, 16384]   # T!A1:A5
 SECOND = [3, 9, 3, 9]          # fixed second criteria range, criterion ">5" selects positions 1 and 3 (0-based)
 
@@ -75,6 +76,10 @@ VARIANTS = [
     # the target lies on another sheet, at the very address of the criteria range
     ('SUMIF/3othersheet', '=SUMIF(A1:A{n},{c},T!A1:A{n})', 'sum_t', False),
     ('SUMIFS/1othersheet', '=SUMIFS(T!A1:A{n},A1:A{n},{c})', 'sum_t', False),
+    # criteria range and target of two rows and two columns (sheet U): positions correspond in row-major order
+    ('SUMIFS/2x2', '=SUMIFS(U!D1:E2,U!A1:B2,{c})', 'sum_2x2', False),
+    ('COUNTIFS/2x2', '=COUNTIFS(U!D1:E2,">1",U!A1:B2,{c})', 'count_2x2', False),
+    ('AVERAGEIFS/2x2', '=AVERAGEIFS(U!D1:E2,U!A1:B2,{c},U!D1:E2,"<8")', 'avg_2x2', False),
     # different sizes: an error, never a number
     ('SUMIFS/short', '=SUMIFS(B1:B{m},A1:A{n},{c})', 'error', False),
     ('SUMIFS/long', '=SUMIFS(B1:B{p},A1:A{n},{c})', 'error', False),
@@ -128,7 +133,8 @@ def build(n, tf=False):
             cells[addr] = tmpl.format(n=n, m=n - 1, p=n + 1, c=ftext)
             meta.append((addr, fi, vi))
         row += 1
-    return [('S', cells), ('T', {f'A{i + 1}': v for i, v in enumerate(TARGET_T)})], meta
+    block = {'D1': TARGET[0], 'E1': TARGET[1], 'D2': TARGET[2], 'E2': TARGET[3], 'B2': BLOCK_FIXED}
+    return [('S', cells), ('T', {f'A{i + 1}': v for i, v in enumerate(TARGET_T)}), ('U', block)], meta
 
 
 def D_col(i):
@@ -224,6 +230,15 @@ def expected(kind, second, vec, crit):
     if kind in ('sum_lower1', 'sum_lower2', 'sum_e'):
         col = {'sum_lower1': (TARGET + [1000, 2000])[1:], 'sum_lower2': (TARGET + [1000, 2000])[2:], 'sum_e': TARGET_E}[kind]
         return sum(col[i] for i in sel), sel
+    if kind in ('sum_2x2', 'count_2x2', 'avg_2x2'):
+        cells4 = (list(vec) + [None, None, None])[:3] + [BLOCK_FIXED]
+        sel = [i for i in range(4) if pred(cells4[i])]
+        if kind == 'sum_2x2':
+            return sum(TARGET[i] for i in sel), sel
+        if kind == 'count_2x2':
+            return len([i for i in sel if TARGET[i] > 1]), sel
+        sel = [i for i in sel if TARGET[i] < 8]
+        return (sum(TARGET[i] for i in sel) / len(sel) if sel else R.Err('ANY')), sel
     if kind == 'sum_t':
         return sum(TARGET_T[i] for i in sel), sel
     if kind == 'sum_shift':
@@ -297,6 +312,7 @@ def run_ov(cases, stats):
         sheets, meta = built(len(vec), tf)
         cls = S.get_class(sheets, stats=stats)
         ov = [(f'A{k + 1}', v) for k, v in enumerate(vec) if v is not None]
+        ov += [(('U', a), v) for a, v in zip(('A1', 'B1', 'A2'), vec) if v is not None]
         outs = S.run(cls, ov, [a for a, *_ in meta], stats)
         judge(vec, outs, meta, 'ov', stats, i, vio, tf)
     return vio
@@ -311,7 +327,11 @@ def run_cell(cases, stats):
         for k, v in enumerate(vec):
             if v is not None:
                 cells[f'A{k + 1}'] = v
-        kind, cls = S.try_class([('S', cells)] + list(sheets[1:]), stats=stats)
+        ublock = dict(sheets[2][1])
+        for a, v in zip(('A1', 'B1', 'A2'), vec):
+            if v is not None:
+                ublock[a] = v
+        kind, cls = S.try_class([('S', cells), sheets[1], ('U', ublock)], stats=stats)
         S._CACHE.clear()
         if kind != 'OK':
             vio.append({'i': i, 'desc': {'func': 'workbook', 'src': 'cell', 'outcome': 'SCAFFOLD'}, 'expected': 'translates',
